@@ -52,8 +52,9 @@ fn run_case(c: &Case, scratch: &str, idx: usize) -> Vec<Value> {
     }));
     let Ok(lib) = lib else { continue };
     let fixed = pat.fixed_string().to_string();
-    let rf = run_sgv(&["run", "-p", &c.pattern, "-l", &lname, "--strictness", lv, "--json=stream", &file], &dir, None, 20, &[]);
-    let rs = run_sgv(&["run", "-p", &c.pattern, "-l", &lname, "--strictness", lv, "--json=stream", "--stdin"], &dir, Some(&c.src), 20, &[]);
+    let parg = format!("--pattern={}", c.pattern); // a pattern may start with `-`
+    let rf = run_sgv(&["run", &parg, "-l", &lname, "--strictness", lv, "--json=stream", &file], &dir, None, 20, &[]);
+    let rs = run_sgv(&["run", &parg, "-l", &lname, "--strictness", lv, "--json=stream", "--stdin"], &dir, Some(&c.src), 20, &[]);
     let rule = json!({"id": "r", "language": lname, "rule": {"pattern": {"context": c.pattern, "strictness": lv}}}).to_string();
     let sf = run_sgv(&["scan", "--inline-rules", &rule, "--json=stream", &file], &dir, None, 20, &[]);
     let ss = run_sgv(&["scan", "--inline-rules", &rule, "--json=stream", "--stdin"], &dir, Some(&c.src), 20, &[]);
